@@ -284,6 +284,12 @@ func checkC13(R *Run) {
 					}
 				}
 			}
+			// a helper that produces the notice on every one of its paths
+			for _, cal := range P.callees(ci) {
+				if isNotifierFn(P, cal, 0) {
+					return true
+				}
+			}
 			return false
 		}
 		eachInstr(fn, func(ins ssa.Instruction) {
@@ -547,4 +553,34 @@ func reachesWithout(b *ssa.BasicBlock, idx int, to, avoid ssa.Instruction) bool 
 		}
 	}
 	return false
+}
+
+var notifierMemo = map[*ssa.Function]bool{}
+
+// isNotifierFn: every path from the function's entry to a return constructs / broadcasts a user-change notice.
+func isNotifierFn(P *Prog, fn *ssa.Function, depth int) bool {
+	if v, ok := notifierMemo[fn]; ok {
+		return v
+	}
+	if fn == nil || len(fn.Blocks) == 0 || depth > 2 {
+		return false
+	}
+	notifierMemo[fn] = false
+	ok, _ := mustPassFromBlock(fn.Blocks[0], func(ins ssa.Instruction) bool {
+		ci, isCall := ins.(ssa.CallInstruction)
+		if !isCall {
+			return false
+		}
+		if _, isN := notifyChangeUserFields(ci); isN {
+			return true
+		}
+		for _, cal := range P.callees(ci) {
+			if cal != fn && isNotifierFn(P, cal, depth+1) {
+				return true
+			}
+		}
+		return false
+	})
+	notifierMemo[fn] = ok
+	return ok
 }
